@@ -173,6 +173,21 @@ def gen_provocation_inspect(rng, sid):
     return {"id": sid, "kind": "provocation-inspect", "entry": False, "bps0": [2], "steps": steps, "pin": 2 * sid + 1, "sched": "main-first"}
 
 
+def gen_provocation_stale_pause(rng, sid, rounds):
+    """pause and continue in ONE write, again and again while the program runs: whenever the cycle thread consumes the
+    pending pause before the continue is handled, the Pause stop is in flight while continue clears pause_expected -
+    the coordinator has to drop it (and a Pause stop it looked at earlier is reported)."""
+    steps = []
+    for _ in range(rounds):
+        second = rng.choice(["continue", "continue", "continue", "next"])
+        steps.append(req("pause", rng.choice([1, 2]), gap=0))
+        steps.append(req(second, 1, gap=rng.choice([-1, -1, -1, 0, 30, 150])))
+        steps.append({"op": "sleep", "us": rng.choice([300, 1000, 2500, 4000])})
+        if second != "continue":
+            steps.append(req("continue", 1))
+    return {"id": sid, "kind": "provocation-stale-pause", "entry": False, "bps0": [], "steps": steps}
+
+
 def from_model(hist, rng, sid):
     init = hist[0]
     steps = []
@@ -205,6 +220,8 @@ def make_scripts(tier, work):
         scripts.append(gen_provocation_order(rng, len(scripts), 12))
     for _ in range(8 if q else 40):
         scripts.append(gen_provocation(rng, len(scripts), 25))
+    for _ in range(6 if q else 30):
+        scripts.append(gen_provocation_stale_pause(rng, len(scripts), 30))
     for h in hists:
         scripts.append(from_model(h, rng, len(scripts)))
     for _ in range(170 if q else 2600):
@@ -229,7 +246,7 @@ def validate_chunk(runs, work, tag, cfg):
         for r in runs:
             for e in r:
                 f.write(json.dumps(e) + "\n")
-    verdict, res = validate_trace("DapStopTrace", tr, cfg=cfg, dfs=True, tag=tag, xmx="3g")
+    verdict, res = validate_trace("DapStopTrace", tr, cfg=cfg, dfs=True, tag=tag, xmx="2g")
     total = sum(len(r) for r in runs)
     if verdict["events"] != total or verdict["runs"] != len(runs):
         raise ToolError("trace length mismatch")
